@@ -3,6 +3,7 @@ package vhcmd
 import (
 	"encoding/json"
 	"fmt"
+	"github.com/ipld/go-ipld-prime/schema"
 	"os"
 	"path/filepath"
 
@@ -20,6 +21,7 @@ func init() {
 		fs := newFlags("gengo")
 		in := fs.String("in", "-", "case file (TLC output lines)")
 		out := fs.String("out", "", "output directory of the generated package")
+		memlayout := fs.String("memlayout", "", "non-default memory layout for EVERY union type: \"interface\" (default: the generator's own default, embedAll)")
 		fs.Parse(args)
 		col := run.NewCollector("gengo")
 		var roots []json.RawMessage
@@ -44,7 +46,17 @@ func init() {
 		var genErr interface{}
 		func() {
 			defer func() { genErr = recover() }()
-			gengo.Generate(*out, "gen", *ts, &gengo.AdjunctCfg{})
+			adj := &gengo.AdjunctCfg{}
+			if *memlayout != "" {
+				adj.CfgUnionMemlayout = map[schema.TypeName]string{}
+				for name, t := range ts.GetTypes() {
+					if t.TypeKind() == schema.TypeKind_Union {
+						adj.CfgUnionMemlayout[name] = *memlayout
+					}
+				}
+				col.SetExtra("union_memlayout", *memlayout)
+			}
+			gengo.Generate(*out, "gen", *ts, adj)
 		}()
 		if genErr != nil {
 			col.Add(run.Finding{Step: -1, Target: "gengo.Generate", Rule: "generates", Class: "panic", Detail: fmt.Sprint(genErr)})
